@@ -329,6 +329,26 @@ func c04Run(w *core.W) {
 			}
 		}
 	}
+	// generators that are closures (they read a captured variable after every yield) consumed by a loop whose body calls
+	// another closure, in a function, after 0..2 earlier loops of the same call made contexts available for recycling
+	for _, warm := range []string{"", "  for i <- fromto(0, 1) 0\n", "  for i <- fromto(0, 1) 0\n  for i <- fromto(0, 2) for j <- fromto(0, 2) 0\n", "  for i <- fromto(0, 5) if i == 1 {\n    t = i\n  }\n"} {
+		for _, loop := range []string{
+			"  for v <- g() r = r + [h(v)]\n",
+			"  for v, w <- g(), gb() r = r + [h(v) + hb(w)]\n",
+			"  for v <- g() for w <- gb() r = r + [h(v) + hb(w)]\n",
+			"  for v <- g() r = r + [v + hb(1)]\n",
+		} {
+			st := []string{
+				"mk = (k) -> () -> {\n  yield k\n  yield k + 1\n  yield k + 2\n}",
+				"add = (d) -> (v) -> v + d",
+				"run = () -> {\n  g = mk(10)\n  gb = mk(20)\n  h = add(100)\n  hb = add(1000)\n" + warm + "  r = []\n" + loop + "  r\n}",
+				"run()", "[run(), run()]",
+			}
+			if !emit(st) {
+				return
+			}
+		}
+	}
 	// every activation starts with its own, empty variables: what an earlier call (or expression) left at the same
 	// stack depth must not show through a variable this call did not assign. Differential on the real VM: the call
 	// after a polluting statement against the same call in a fresh session; no tag of the polluter may appear.
